@@ -10,6 +10,7 @@ import inspect
 import itertools
 
 import fiddle as fdl
+from fiddle._src import history as fhistory
 from fiddle._src import config as cfglib
 
 from vf import model as M
@@ -44,7 +45,7 @@ NO = fdl.NO_VALUE
 VAR = fdl.VARARGS
 
 EXTRA_FNS = sigs.WIDE + [kinds.PosInit, kinds.DC, kinds.DCKwOnly, kinds.NewOnly,
-                         kinds.WithMethods.smake, kinds.callable_instance]
+                         kinds.WithMethods.smake, kinds.callable_instance] + kinds.DEFAULT_VARIANTS + kinds.LAMBDA_VARIANTS
 
 
 def all_fns():
@@ -280,8 +281,16 @@ def step(cfg, m, op, rng, acc):
     rm = ('ok', apply_model(m, op))
   except M.Rejected:
     rm = ('rej', None)
+  # one edit in eight happens while history tracking is suspended: what the Buildable reports
+  # does not depend on what its history has recorded (a later edit meets an argument without any)
+  untracked = rng.random() < 0.125
   try:
-    rr = ('ok', apply_real(cfg, op))
+    if untracked:
+      acc.obs('ops_with_tracking_suspended')
+      with fhistory.suspend_tracking():
+        rr = ('ok', apply_real(cfg, op))
+    else:
+      rr = ('ok', apply_real(cfg, op))
   except Exception as e:  # pylint: disable=broad-except
     rr = ('rej', type(e).__name__)
   outcome = rm[0] + '/' + rr[0]
